@@ -53,8 +53,10 @@ NotWellFormed == {"truncate", "dropTag", "dupTag", "swapTag", "unclosedQuote", "
                   "loneSurrogate", "fffe", "nul", "unknownXmlEncoding"}
 (* well-formed but not a stylesheet (XSLT 1.0: 2.1/2.3 no xsl:version, 2.5 unknown element in 1.0 mode, 2.1 unknown *)
 (* attribute, the "required" attributes of section 5-16, 7.6.2 unbalanced braces) or not an expression (XPath 1.0 3) *)
+(* or refers to a variable that is not in scope (XPath 1.0 3.7 / XSLT 11: an error; nothing is in scope of a top-level      *)
+(* parameter expression supplied through the API)                                                                       *)
 NotValid      == {"wrongXslNamespaceRoot", "unknownXslElement", "unknownXslAttribute", "missingRequiredAttribute",
-                  "avtUnbalanced", "nonExpression"}
+                  "avtUnbalanced", "nonExpression", "undefinedVariable"}
 (* well-formed and valid: must succeed                                                                      *)
 MustSucceed   == {"seed", "wrongXslNamespaceInner", "numberLiteral", "numberFormat", "numberValue", "longName",
                   "cdataBracket", "paramExpression"}
